@@ -3,6 +3,7 @@ import GnpyProofs.Lemmas.Route
 import GnpyProofs.Lemmas.Disjoint
 import GnpyProofs.Props.C11
 import GnpyProofs.Lemmas.Selection
+import GnpyProofs.Lemmas.SelectionSound
 /- Property theorems for C12 — requests declared disjoint never share a link in either direction.
    Model: GnpyModel/Route.lean (`LinkDisjoint`, `isdisjointPy`, `shortOf`, `revChain`, `disjointOracle`, steps 2-5 of
    `compute_path_dsjctn` over abstract candidates). -/
@@ -234,6 +235,57 @@ theorem pair_complete (inp : SelInput) (d r0 r1 : Nat) (reqs : List Nat) (hne : 
     simp only [List.all_cons, List.all_nil, Bool.and_true, Bool.and_eq_true] at hall
     exact h ⟨i, hi, j, hj, hd, hall.1, hall.2⟩
 
+/-- **step 2 only builds disjoint combinations (any vector size)**: every combination holds one candidate per request
+of the vector, in order, and every candidate passed the implementation's test against all candidates before it -/
+theorem step2_combinations_good (inp : SelInput) (dl : List Nat) (sol : List Cand) (h : sol ∈ step2 inp dl) :
+    sol.map Prod.fst = dl ∧ sol.Pairwise (fun a b => inp.dis b a = true) :=
+  step2_good inp dl sol h
+
+/-- **C12, soundness of the selection (steps 2-5), any set of synchronisation vectors** — pairs, larger vectors,
+overlapping vectors.  Whatever combination step 5 returns: every request receives exactly one path, and inside every
+vector any two requests received paths that passed the disjointness test (which, by
+`isdisjoint_test_iff_linkDisjoint`, means: no common link in either direction).  Python's remove-while-iterating in
+step 3, the alternates of step 4 and `remove_candidate` are all part of the model.  Otherwise the result is `none`:
+the computation stops with a DisjunctionError instead of returning overlapping paths. -/
+theorem selection_sound (inp : SelInput) (groups : List (Nat × List Nat)) (reqs : List Nat) (chosen : List Cand)
+    (hids : (groups.map (·.1)).Nodup) (hdl : ∀ g ∈ groups, g.2.Nodup)
+    (hreqs : ∀ g ∈ groups, ∀ r ∈ g.2, r ∈ reqs) (hnd : reqs.Nodup)
+    (h : selectDisjoint inp groups reqs = some chosen) :
+    (∀ c ∈ chosen, ∀ c' ∈ chosen, c.1 = c'.1 → c = c') ∧
+    ∀ g ∈ groups, ∀ r ∈ g.2, ∀ r' ∈ g.2, r ≠ r' →
+      ∃ c ∈ chosen, ∃ c' ∈ chosen, c.1 = r ∧ c'.1 = r' ∧ (inp.dis c c' = true ∨ inp.dis c' c = true) := by
+  unfold selectDisjoint step5 at h
+  simp only at h
+  have hgood2 : GoodTable inp groups (groups.map (fun g => (g.1, step2 inp g.2))) := by
+    intro e he
+    obtain ⟨g, hg, rfl⟩ := List.mem_map.1 he
+    exact ⟨g, hg, rfl, step2_good inp g.2⟩
+  have hgood3 := step3_good inp groups reqs _ hgood2
+  have hgood4 : GoodTable inp groups
+      ((step3 inp groups reqs (groups.map (fun g => (g.1, step2 inp g.2)))).map
+        (fun x => (x.1, step4 inp x.2))) :=
+    goodTable_map inp groups _ _ (fun e => ⟨rfl, step4_subset inp e.2⟩) hgood3
+  have hinv : Inv inp groups reqs
+      ((step3 inp groups reqs (groups.map (fun g => (g.1, step2 inp g.2)))).map
+        (fun x => (x.1, step4 inp x.2))) reqs [] :=
+    ⟨hgood4, by intro c hc; simp at hc, fun r hr => Or.inl hr, by intro c hc; simp at hc,
+     by intro c hc; simp at hc, hnd⟩
+  obtain ⟨_, huniq, hall⟩ := go_sound inp groups reqs hids hdl hreqs _ _ _ _ chosen hinv h
+  refine ⟨huniq, ?_⟩
+  intro g hg r hr r' hr' hne
+  obtain ⟨sol, ⟨hmap, hpw⟩, hin⟩ := hall g.1 (List.mem_map.2 ⟨g, hg, rfl⟩) g hg rfl
+  have hr1 : r ∈ sol.map Prod.fst := hmap ▸ hr
+  have hr2 : r' ∈ sol.map Prod.fst := hmap ▸ hr'
+  obtain ⟨c, hc, hc1⟩ := List.mem_map.1 hr1
+  obtain ⟨c', hc', hc1'⟩ := List.mem_map.1 hr2
+  have hcc : c ≠ c' := by
+    intro e; apply hne; rw [← hc1, ← hc1', e]
+  have hsym : sol.Pairwise (fun a b => inp.dis a b = true ∨ inp.dis b a = true) :=
+    hpw.imp (fun h => Or.inr h)
+  haveI : Std.Symm (fun a b : Cand => inp.dis a b = true ∨ inp.dis b a = true) := ⟨fun _ _ hab => Or.symm hab⟩
+  have := List.Pairwise.forall hsym hc hc' hcc
+  exact ⟨c, hin c hc, c', hin c' hc', hc1, hc1', this⟩
+
 /-- larger or overlapping vectors: completeness is NOT claimed (`…_partial`).  Full statement that is false in general:
     `selectDisjoint inp groups reqs = none ↔ ¬ ∃ assignment of one acceptable candidate per request, pairwise passing
     the test inside every vector`.  Counter-example shape: vectors {A,B} and {A,C}; the first combination of {A,B}
@@ -289,6 +341,18 @@ example : PairFacts demoSel 0 1 := by
   · intro i j hi hj h; simp only [demoSel] at h hi hj; omega
   · intro i j hi hj h; simp only [demoSel] at h hi hj; omega
 example : selectDisjoint { demoSel with dis := fun _ _ => false } [(7, [0, 1])] [0, 1] = none := by decide
+/-- overlapping vectors {0,1} and {0,2}: three requests with two candidates each, candidates with different index are
+disjoint; a triple {0,1,2} is impossible -/
+def demoSel3 : SelInput where
+  ncand := fun _ => 2
+  dis := fun c c' => c.2 != c'.2
+  okInc := fun _ => true
+  hasStrict := fun _ => false
+  hasInc := fun _ => false
+  vid := fun c => 2 * c.1 + c.2
+
+example : selectDisjoint demoSel3 [(0, [0, 1]), (1, [0, 2])] [0, 1, 2] = some [(0, 1), (1, 0), (2, 0)] := by decide
+example : selectDisjoint demoSel3 [(0, [0, 1, 2])] [0, 1, 2] = none := by decide
 example : sitesOf [oAB, oBC] = [0, 1, 2] ∧ linksC [oAB, oBC] = [(0, 1), (1, 2)] := by decide
 
 end Gnpy.Route
